@@ -1,5 +1,5 @@
 import sys, time
-sys.path.insert(0, '/verif')
+import os; sys.path.insert(0, os.environ.get('VERIF_HOME', '/verif'))
 import z3
 from pyvc import smt, verify
 import contracts
